@@ -160,6 +160,7 @@ def run_config(cfg):
                     flow.fit(x0, n_epochs=1, batch_size=64)
                 else:
                     flow.fit(x0, max_epochs=1, batch_size=64, show_progress=False)
+                _ = flow.log_prob(x0[:4])  # the density has been evaluated (and whatever that sets up exists) before the second fit
             if backend == "zuko":
                 flow.fit(x, n_epochs=2, batch_size=64)
             else:
